@@ -113,9 +113,17 @@ def literal_of(facts, b, tr, g):
         if sp.kind == "field" and sp[2] == "obfs":
             return ("obfs", True)
         if sp.kind == "call" and sp[6] == "eq" and any(x.kind == "call" and x[6] == "path" for x in walk(sp)):
+            # the compared value must be the request path itself, not a normalised / trimmed / lower-cased copy of it
+            other = [a for a in sp[3] if const_str_of(facts, a) is None]
+            transformed = sorted(set(x[6] for a in other for x in walk(a) if x.kind == "call" and x[6] not in
+                                     ("path", "uri", "as_str", "deref", "as_ref", "borrow", "eq", "headers", "method")
+                                     and (x[1].startswith(("core::str", "alloc::str", "alloc::string", "<str", "<alloc::string", "core::slice", "http::uri"))
+                                          and x[6] not in ("path", "uri"))))
             for a in sp[3]:
                 v = const_str_of(facts, a)
                 if v is not None:
+                    if transformed:
+                        return ("path~%s(%s)" % (v, ",".join(transformed)), True)
                     return ("path==%s" % v, True)
         return None
     if g.kind == "discr" and g.adt and g.adt.endswith("option::Option"):
